@@ -136,9 +136,9 @@ def parse_edit(line, unit, lineno):
     m = re.match(r"guard_try( \+returns)?:\s*(.*)$", t, re.S)
     if m:
         return {"op": "guard_try", "text": m.group(2), "returns": bool(m.group(1))}
-    m = re.match(r"match_str (\d+)$", t)
+    m = re.match(r"match_str (\d+)( opt)?$", t)
     if m:
-        return {"op": "match_str", "n": int(m.group(1))}
+        return {"op": "match_str", "n": int(m.group(1)), "opt": bool(m.group(2))}
     m = re.match(r"closure (\d+)( opt)?:\s*(.*)$", t, re.S)
     if m:
         return {"op": "closure", "n": int(m.group(1)), "opt": bool(m.group(2)), "header": m.group(3)}
